@@ -41,6 +41,16 @@ fn splitmix(x: &mut u64) -> u64 {
     z ^ (z >> 31)
 }
 
+pub fn str_hash(s: &str) -> u64 {
+    let h = blake3::hash(s.as_bytes());
+    u64::from_le_bytes(h.as_bytes()[..8].try_into().unwrap())
+}
+
+pub fn bytes_hash(b: &[u8]) -> u64 {
+    let h = blake3::hash(b);
+    u64::from_le_bytes(h.as_bytes()[..8].try_into().unwrap())
+}
+
 pub fn mix(a: u64, b: u64) -> u64 {
     let mut s = a ^ b.rotate_left(32) ^ 0xD1B54A32D192ED03;
     let x = splitmix(&mut s);
@@ -181,6 +191,8 @@ pub struct Net {
     /// bytes delivered to each party (taken from inbox)
     pub bytes_delivered: Vec<usize>,
     pub record_payloads: bool,
+    /// per-party hash of its observation history (issues, completions, received contents, poll boundaries)
+    pub hist: Vec<u64>,
     pub alloc: Vec<crate::alloc::Stats>,
 }
 
@@ -207,12 +219,17 @@ impl Net {
             pair_ctr: vec![0; n * n],
             bytes_delivered: vec![0; n],
             record_payloads: true,
+            hist: vec![0x1234_5678_9abc_def0; n],
             alloc: vec![Default::default(); n],
         }
     }
     fn tick(&mut self) -> u64 {
         self.t += 1;
         self.t
+    }
+    fn observe(&mut self, p: usize, code: u64, a: u64, b: u64) {
+        let h = self.hist[p];
+        self.hist[p] = mix(mix(h, code ^ (self.polls[p] as u64) << 8), mix(a, b));
     }
     fn next_ord(&mut self, party: usize, peer: usize, dir: Dir, label: &str) -> usize {
         let c = self
@@ -289,6 +306,9 @@ impl Future for SendFut<'_> {
                 let ip = net.polls[me];
                 net.ops[op].issue_t = t;
                 net.ops[op].issue_poll = ip;
+                let lh = str_hash(&net.ops[op].label);
+                let ln = net.ops[op].len as u64;
+                net.observe(me, 1, this.to as u64, mix(lh, ln));
                 let k = (me * n + this.to) * 2;
                 net.outstanding[k] += 1;
                 if net.outstanding[k] > net.max_outstanding {
@@ -302,6 +322,7 @@ impl Future for SendFut<'_> {
                 let t = net.tick();
                 net.ops[op].complete_t = Some(t);
                 net.ops[op].ok = false;
+                net.observe(me, 3, this.to as u64, 0);
                 let k = (me * n + this.to) * 2;
                 net.outstanding[k] -= 1;
                 this.done = true;
@@ -353,6 +374,7 @@ impl Future for SendFut<'_> {
                 net.sent_count[me] += 1;
                 net.ops[op].complete_t = Some(t);
                 net.ops[op].ok = true;
+                net.observe(me, 2, this.to as u64, 1);
                 let k = (me * n + this.to) * 2;
                 net.outstanding[k] -= 1;
                 if let Some(limit) = net.crash_after[me]
@@ -418,6 +440,8 @@ impl Future for RecvFut<'_> {
                 let ip = net.polls[me];
                 net.ops[op].issue_t = t;
                 net.ops[op].issue_poll = ip;
+                let lh = str_hash(&net.ops[op].label);
+                net.observe(me, 4, this.from as u64, lh);
                 net.outstanding[k] += 1;
                 if net.outstanding[k] > net.max_outstanding {
                     net.max_outstanding = net.outstanding[k];
@@ -446,6 +470,8 @@ impl Future for RecvFut<'_> {
                 }
                 let t = net.tick();
                 net.bytes_delivered[me] += data.len();
+                let ch = bytes_hash(&data);
+                net.observe(me, 5, this.from as u64, ch);
                 net.ops[op].complete_t = Some(t);
                 net.ops[op].ok = true;
                 net.ops[op].len = data.len();
@@ -457,6 +483,7 @@ impl Future for RecvFut<'_> {
                 let t = net.tick();
                 net.ops[op].complete_t = Some(t);
                 net.ops[op].ok = false;
+                net.observe(me, 6, this.from as u64, 0);
                 net.outstanding[k] -= 1;
                 this.done = true;
                 Poll::Ready(Err(VErr::Closed))
@@ -777,6 +804,29 @@ impl<T: Send + 'static> Execution<T> {
         v
     }
 
+    /// Hash of everything that determines the future of this execution under a memoryless policy.
+    pub fn state_key(&self) -> u128 {
+        let net = self.net.lock().unwrap();
+        let mut a = 0x51ed_27f1_0000_0001u64;
+        let mut b = 0x9e37_79b9_7f4a_7c15u64;
+        for p in 0..self.n {
+            let flags = (net.woken[p] as u64) | ((self.outcomes[p].is_some() as u64) << 1) | ((net.closed[p] as u64) << 2);
+            a = mix(a, net.hist[p]);
+            b = mix(b ^ flags, net.hist[p].rotate_left(17));
+            a = mix(a, flags);
+        }
+        for q in net.q.iter() {
+            let l = (q.inflight.len() as u64) << 20 | q.inbox.len() as u64;
+            a = mix(a, l);
+            b = mix(b, l ^ 0xabcdef);
+        }
+        ((a as u128) << 64) | b as u128
+    }
+
+    pub fn hists(&self) -> Vec<u64> {
+        self.net.lock().unwrap().hist.clone()
+    }
+
     pub fn unfinished(&self) -> Vec<usize> {
         (0..self.n).filter(|p| self.outcomes[*p].is_none()).collect()
     }
@@ -917,6 +967,7 @@ pub struct RunResult<T> {
     pub bytes_delivered: Vec<usize>,
     pub cap_hit: bool,
     pub alloc: Vec<crate::alloc::Stats>,
+    pub hists: Vec<u64>,
 }
 
 /// Run an execution to completion.  `chooser(enabled, step index)` returns the index of the
@@ -981,6 +1032,7 @@ pub fn run<T: Send + 'static>(
         bytes_delivered: net.bytes_delivered.clone(),
         cap_hit,
         alloc: net.alloc.clone(),
+        hists: net.hist.clone(),
     };
     drop(net);
     r
